@@ -23,6 +23,7 @@ type DemuxParams struct {
 	CancelAt int       `json:"cancel_at"`  // after this many envelopes were fed
 	Cancels  int       `json:"cancels,omitempty"` // how many tasks call Cancel(key) at that point (concurrent cancels of one key are legal)
 	StopAt   int       `json:"stop_at"`    // -1: only at the end
+	WFail    int       `json:"wfail,omitempty"` // >0: the WFail-th write on the shared transport fails once (the transport stays usable)
 }
 
 func genDemux(g *rand.Rand, tier string) any {
@@ -152,6 +153,18 @@ func execDemux(e *Env, pp any) {
 		cr.finished = true
 		histMu.Unlock()
 	})
+	failedIdx, failedPayload := -1, ""
+	if p.WFail > 0 {
+		b.Out.WriteFault = func(n int, r *Rpc) error {
+			if n == p.WFail && failedIdx < 0 {
+				failedPayload = string(r.GetBody().GetData())
+				fmt.Sscanf(failedPayload, "w-%d-", &failedIdx)
+				e.Note("fault.link.writeFail")
+				return ErrInjected
+			}
+			return nil
+		}
+	}
 	runReturned := false
 	e.Go("demux.run", func() {
 		dm.Run()
@@ -256,6 +269,19 @@ func execDemux(e *Env, pp any) {
 	if cancelDone {
 		cancelKey = keyName(p.CancelKey % p.Keys)
 	}
+	if failedIdx >= 0 && failedIdx < len(cs) {
+		// a write of this logical connection was refused by the shared transport: the
+		// connection may be failed for it (and its key then starts afresh, as after a
+		// Cancel), but its consumer is not left blocked
+		fc := cs[failedIdx]
+		e.Note("demux.write-refused")
+		if !fc.finished && !stopped {
+			e.Violate(prop, "blocked-after-write-error", "demux.go:newConnLocked", "the shared transport refused one envelope (%s) of logical connection %d (key %s) and stayed usable; the connection was not failed and its consumer is blocked in a later Write for good\n%s", failedPayload, fc.idx, fc.key, e.WaitGraph())
+		}
+		if cancelKey == "" {
+			cancelKey = fc.key
+		}
+	}
 	perKey := map[string][]*connRec{}
 	for _, cr := range cs {
 		if cr.key != "" {
@@ -330,7 +356,7 @@ func execDemux(e *Env, pp any) {
 	b.Out.mu.Unlock()
 	for _, cr := range cs {
 		for _, w := range cr.wrote {
-			if shared[w] != 1 && !stopped && cr.key != cancelKey {
+			if shared[w] != 1 && !stopped && cr.key != cancelKey && w != failedPayload {
 				e.Violate(prop, "write-lost-or-duplicated", "demux.go:newConnLocked", "envelope %s written on logical connection %d appears %d times on the shared transport", w, cr.idx, shared[w])
 			}
 			if shared[w] > 1 {
@@ -413,4 +439,20 @@ func readBefore(e *Env, idx, ev int) bool {
 func init() {
 	Register(&Family{Name: "c18.demux", ShrinkKeys: []string{"seq", "cancel_at", "stop_at"}, Props: []string{"C18"}, New: func() any { return &DemuxParams{} }, Gen: genDemux, Exec: execDemux,
 		Faulty: true, FaultKinds: []string{"demux.cancel", "demux.stop"}})
+	// c18.wfail: the shared transport refuses one envelope and stays usable (an
+	// envelope it cannot encode, a size limit, an HTTP POST answered with an error)
+	Register(&Family{Name: "c18.wfail", ShrinkKeys: []string{"seq"}, Props: []string{"C18"}, New: func() any { return &DemuxParams{} }, Exec: execDemux,
+		Gen: func(g *rand.Rand, tier string) any {
+			p := genDemux(g, tier).(*DemuxParams)
+			p.CancelKey, p.StopAt, p.Cancels = -1, -1, 0
+			for i := range p.Reads {
+				if p.Reads[i] < 0 || g.IntN(2) == 0 {
+					p.Reads[i] = 1 + g.IntN(3)
+				}
+				p.Writes[i] = 1 + g.IntN(4)
+			}
+			p.WFail = 1 + g.IntN(6)
+			return p
+		},
+		Faulty: true, FaultKinds: []string{"link.writeFail"}})
 }
